@@ -176,6 +176,8 @@ def run(facts, res):
             dty = body.local_ty(cterm.dest.local) if cterm.dest is not None else ""
             if any(k in dty for k in iters.KEYED_TYPES):
                 verdict, why = "sanitized", "collected into keyed container %s" % dty.split("<")[0]
+            elif _positional_uses_order_free(facts, cg, body, fl.cons_block):
+                verdict, why = "sanitized", "collected into %s whose every use is order-free (keyed extend, maximum under a total order, len / contains / sort)" % dty.split("<")[0]
             else:
                 verdict, why = "sink", "collected into positional container %s" % dty.split("<")[0]
                 sinks = ["collect(%s)" % dty.split("<")[0].rsplit("::", 1)[-1]]
@@ -417,6 +419,63 @@ def run(facts, res):
                               "object submitted for a sentinel revision) becomes readable while it stays cached, so what a replica shows depends on the "
                               "cache capacity and differs from a reopened replica" % b.path, b.loc(t.line))
     res.floor("D3", "object cache fill sites", n3d, 1)
+
+
+def _positional_uses_order_free(facts, cg, body, collect_block, depth=0):
+    """the Vec produced by the collect() in `collect_block` is only ever used in ways that do not depend on its order: extended
+    into a keyed container, reduced to a maximum / minimum under a comparison, asked for its length / membership, sorted; when
+    the function returns it (a private helper), the same holds for the call's result in every caller"""
+    du = du_of(body)
+    t = body.blocks[collect_block].term
+    if t.dest is None or t.dest.proj:
+        return False
+    ORDER_FREE = {"len", "is_empty", "contains", "sort", "sort_by", "sort_unstable", "sort_by_key", "sort_unstable_by", "drop", "iter", "into_iter",
+                  "deref", "as_slice", "cloned", "copied", "any", "all", "count", "max", "min", "sum", "clone", "borrow", "as_ref"}
+
+    def derives(term):
+        return any((x[0] == "call" and x[3] == collect_block and x[1] == t.callee.target()) for x in walk(term))
+    used = False
+    for bi, tt in body.calls():
+        if bi == collect_block or tt.callee is None:
+            continue
+        hit = [i for i, a in enumerate(tt.args) if derives(du.operand_term(a, 20))]
+        if not hit:
+            continue
+        used = True
+        n = tt.callee.name
+        sig = (tt.callee.path or "") + (tt.callee.self_ty or "") + " ".join(tt.callee.args or [])
+        if n in ("extend", "append", "collect", "from_iter") and any(k in sig for k in ("BTreeSet", "BTreeMap", "HashSet", "HashMap")):
+            continue
+        if n in ("reduce", "max_by", "min_by", "fold", "max_by_key", "min_by_key"):
+            # a selection by comparison: the closure compares its two arguments
+            cmp_ = False
+            for cb in [facts.body(p_) for p_ in tt.callee.fnargs]:
+                if cb is not None and any(t2.callee is not None and t2.callee.name in ("gt", "lt", "ge", "le", "cmp", "partial_cmp", "max", "min") for _, t2 in cb.calls()):
+                    cmp_ = True
+            if cmp_:
+                continue
+            return False
+        if n in ORDER_FREE:
+            continue
+        return False
+    # returned from a private function: the callers' uses of the result
+    rt = du.local_term(0, 12)
+    if derives(rt):
+        if body.public or depth > 1:
+            return False
+        callers = [s_ for s_ in cg.callers_of(body.path) if s_.body.path != body.path]
+        if not callers:
+            return False
+        for s_ in callers:
+            if not _result_uses_order_free(facts, cg, s_.body, s_.block, depth + 1):
+                return False
+        return True
+    return used
+
+
+def _result_uses_order_free(facts, cg, body, call_block, depth):
+    """same as _positional_uses_order_free for the value returned by the call in `call_block`"""
+    return _positional_uses_order_free(facts, cg, body, call_block, depth)
 
 
 _RAW = {}
